@@ -59,14 +59,14 @@ func (s *Sim) Scenario() *ScenarioOut {
 	r := s.R
 	nb := nonceBook{}
 	out := &ScenarioOut{}
-	pick := r.Intn(13)
+	pick := r.Intn(17)
 	forced := false
 	if s.ForceScenario > 0 {
 		pick = s.ForceScenario - 1
 		s.ForceScenario = 0
 		forced = true
 	}
-	if !forced && pick >= 11 {
+	if !forced && pick >= 15 {
 		pick = 4 // the proposal life cycle is the longest template: give it more weight
 	}
 	switch pick {
@@ -287,6 +287,76 @@ func (s *Sim) Scenario() *ScenarioOut {
 			return f.Build()
 		})
 		s.scnA, s.scnB = nil, nil
+	case 12: // somebody who does not own it tries to release a stake of a validator; in the same block the owner
+		// side (a delegation to / a release from the same validator) follows: the rejected attempt must not count
+		v := s.someValidator()
+		us := s.userKeys(2)
+		if v == nil || len(us) < 2 {
+			return nil
+		}
+		hash := make([]byte, 32) // the genesis stake of a genesis validator
+		for _, st := range s.Stakes {
+			if string(st.To) == string(v.Addr) && st.Owner >= 0 && r.Bool() {
+				hash = st.Hash
+			}
+		}
+		thief := us[0]
+		if string(thief.Addr) == string(v.Addr) {
+			thief = us[1]
+		}
+		out.deliver = append(out.deliver, s.specN(nb, thief, ctrlertypes.TRX_UNSTAKING, v.Addr, nil, &ctrlertypes.TrxPayloadUnstaking{TxHash: hash}).Build())
+		out.deliver = append(out.deliver, s.specN(nb, us[1], ctrlertypes.TRX_STAKING, v.Addr, Rigo(uint64(r.Range(1, 3))), nil).Build())
+		if r.Bool() {
+			out.deliver = append(out.deliver, s.specN(nb, us[0], ctrlertypes.TRX_STAKING, v.Addr, Rigo(1), nil).Build())
+		}
+	case 13: // a native transaction whose (unconstrained) receiver is a contract account, delivered twice
+		if !s.Opt.WithEVM {
+			return nil
+		}
+		us := s.userKeys(2)
+		if len(us) < 1 {
+			return nil
+		}
+		if len(s.Contracts) == 0 {
+			p := evmgen.Program{Name: "balancereader", Init: evmgen.BalanceReaderInit(), NeedsArg: true}
+			s.PendingProg[string(p.Init)] = p
+			out.deliver = append(out.deliver, s.specN(nb, us[0], ctrlertypes.TRX_CONTRACT, rtypes.ZeroAddress(), nil, &ctrlertypes.TrxPayloadContract{Data: p.Init}).Build())
+			s.ForceScenario = 14
+			return out
+		}
+		c := s.Contracts[r.Intn(len(s.Contracts))]
+		u := us[r.Intn(len(us))]
+		switch r.Intn(3) {
+		case 0:
+			out.deliver = append(out.deliver, s.specN(nb, u, ctrlertypes.TRX_SETDOC, c.Addr, nil, &ctrlertypes.TrxPayloadSetDoc{Name: "c", URL: "https://c"}).Build())
+		case 1:
+			out.deliver = append(out.deliver, s.specN(nb, u, ctrlertypes.TRX_WITHDRAW, c.Addr, nil, &ctrlertypes.TrxPayloadWithdraw{ReqAmt: uint256.NewInt(0)}).Build())
+		default:
+			if v := s.someValidator(); v != nil {
+				u = v
+			}
+			out.deliver = append(out.deliver, s.specN(nb, u, ctrlertypes.TRX_SETDOC, c.Addr, nil, &ctrlertypes.TrxPayloadSetDoc{Name: "v", URL: "https://v"}).Build())
+		}
+		out.replay = []int{0}
+	case 14: // a rejected transaction names a receiver of a wrong length; a valid transfer to the 20-byte address that
+		// shares its (zero-padded / truncated) 32-byte ledger key follows in the same block
+		us := s.userKeys(2)
+		if len(us) < 2 {
+			return nil
+		}
+		y := r.Bytes(20)
+		var x []byte
+		switch r.Intn(3) {
+		case 0:
+			y[19] = 0
+			x = append([]byte{}, y[:19]...)
+		case 1:
+			x = append(append([]byte{}, y...), 0)
+		default:
+			x = append(append(append([]byte{}, y...), make([]byte, 12)...), 0xff)
+		}
+		out.deliver = append(out.deliver, s.specN(nb, us[0], ctrlertypes.TRX_TRANSFER, x, uint256.NewInt(uint64(r.Range(1, 50))), nil).Build())
+		out.deliver = append(out.deliver, s.specN(nb, us[1], ctrlertypes.TRX_TRANSFER, y, uint256.NewInt(uint64(r.Range(1, 50))), nil).Build())
 	case 6: // a contract transaction sent by / sent to / touching the proposer of this block
 		if !s.Opt.WithEVM || s.Cur == nil || len(s.Cur.Proposer) == 0 || len(s.Contracts) == 0 {
 			return nil
